@@ -189,6 +189,23 @@ def feb29_after_earlier_year(c):
     return False
 
 
+def unwalked_message_in_window_under_dummy_year(c):
+    """--dt-after given; a message ABOVE the last message before the bound (those are never re-dated by the
+    walk, which stops there) whose stamp, read in the hard-coded fill year 1972, falls inside the window"""
+    if not c["window"] or c["window"][0] is None:
+        return False
+    a, b = c["window"]
+    below = [i for i, t in enumerate(c["ts"]) if t < a]
+    if not below:
+        return False
+    for i in range(below[-1]):
+        g = civil(c["ts"][i], c["off"])
+        t72 = calendar.timegm((1972, g.tm_mon, g.tm_mday, g.tm_hour, g.tm_min, g.tm_sec)) - c["off"]
+        if a <= t72 and (b is None or t72 <= b):
+            return True
+    return False
+
+
 def boundaries(c):
     ys = [civil(t, c["off"]).tm_year for t in c["ts"]]
     return len(set(ys)) - 1
@@ -196,7 +213,7 @@ def boundaries(c):
 
 def run(ctx):
     quick = ctx.quick()
-    n_cases = 2500 if quick else 40000
+    n_cases = 1500 if quick else 40000
     vlib.proof_stage(ctx, PROP_FILE, ["nogen"], extra_targets=["Corr/C11.vo"])
     ok, log = vlib.build_s4()
     if not ok:
@@ -231,6 +248,8 @@ def run(ctx):
             fails += 1
             k = next((i for i, (a, b) in enumerate(zip(exp, got)) if a != b), min(len(exp), len(got)))
             cls = ["feb29_message_preceded_by_message_of_earlier_year"] if feb29_after_earlier_year(c) else []
+            if unwalked_message_in_window_under_dummy_year(c):
+                cls.append("unwalked_message_in_window_under_dummy_year")
             ctx.failure(dict(case_summary(c), args=args, first_difference_at_output_line=k),
                         exp[k] if k < len(exp) else "<end of output> (%d lines)" % len(exp),
                         ("hang" if rc == 124 else got[k] if k < len(got) else "<end of output> (%d lines) %s" % (len(got), err)), cls)
